@@ -279,6 +279,8 @@ func startGatewayHealthCheck(e *EndpointInfo, interval time.Duration, ctx contex
 }
 
 func (e *EndpointInfo) recordStatusChange() {
+	e.status.mux.RLock()
+	defer e.status.mux.RUnlock()
 	klog.V(1).Infof(
 		"[endpoint info] endpoint status changed, cluster=%q, endpoint=%q, disabled=%v, healthy=%v, reason=%q, message=%q",
 		e.Cluster, e.Endpoint, e.status.Disabled, e.status.Healthy, e.status.Reason, e.status.Message,
@@ -290,6 +292,9 @@ func (e *EndpointInfo) IsReady() bool {
 }
 
 func (e *EndpointInfo) UnreadyReason() string {
+	// health checks write reason and message concurrently with requests reading them
+	e.status.mux.RLock()
+	defer e.status.mux.RUnlock()
 	message := ""
 	if e.status.Disabled {
 		message = fmt.Sprintf("endpoint=%q is disabled.", e.Endpoint)
